@@ -604,7 +604,9 @@ def soup_cases():
             kw = st.just({})
         return st.fixed_dictionaries({"text": docs.soups(schema), "schema": st.just(schema), "kwargs": kw}).map(
             lambda c: dict(c, matrix_type=c["kwargs"].get("data_type", "dna" if c["schema"] == "nexus" else None)))
-    return st.one_of(one("newick"), one("nexus"), one("nexus"), one("nexus"), one("phylip"), one("fasta"))
+    stmt = st.fixed_dictionaries({"text": docs.nexus_statement_soups(), "schema": st.just("nexus"),
+                                  "kwargs": st.just({}), "matrix_type": st.sampled_from(["dna", "standard"])})
+    return st.one_of(one("newick"), one("nexus"), one("nexus"), stmt, stmt, stmt, one("phylip"), one("fasta"))
 
 
 DEEP_DEPTHS = (10, 100, 400, 900, 1500, 2500, 5000, 20000)
